@@ -766,6 +766,48 @@ void exec_op(world& w, const json& op)
             rec["id"] = id;
             f = [&c, id] { c.add_track(id); };
         }
+        else if (name == "probe_foreign")
+        {
+            // handles that belong to ANOTHER library object (one of each schema family, temporary) used as arguments of
+            // calls on this library: whatever the library makes of them, every call completes or throws a std::exception
+            auto& c = C(w, op, "c");
+            rec["c"] = c.id();
+            f = [&w, &c, &rec] {
+                json p;
+                auto g = [&](const std::string& what, std::function<json()> fn) {
+                    json v;
+                    auto oc = vh::guarded(what.c_str(), [&] { v = fn(); });
+                    p[what] = json({{"ok", oc.ok}, {"ex", oc.ex}, {"std", oc.ok || oc.std_exc}});
+                };
+                int k = 0;
+                for (auto sch : {dj::engine::engine_schema::schema_1_18_0_os, dj::engine::engine_schema::schema_2_21_2})
+                {
+                    std::string tag = k++ == 0 ? "v1_" : "v2_";
+                    auto other = dj::engine::create_temporary_database(sch);
+                    auto fr = other.create_root_crate("f");
+                    auto fs2 = fr.create_sub_crate("g");
+                    dj::track_snapshot sn;
+                    sn.relative_path = "foreign/t.mp3";
+                    auto ft = other.create_track(sn);
+                    fr.add_track(ft);
+                    if (tag == "v1_")
+                    {
+                        g("id", [&] { return json(fr.id()); });
+                        g("is_valid", [&] { return json(fr.is_valid()); });
+                        g("copy", [&] { dj::crate d{fr}; d = fr; return json(d.id()); });
+                    }
+                    g(tag + "add_track", [&] { c.add_track(ft); return json(0); });
+                    g(tag + "remove_track_from", [&] { c.remove_track(ft); return json(0); });
+                    g(tag + "set_parent", [&] { c.set_parent(fs2); return json(0); });
+                    g(tag + "create_sub_after", [&] { return json(c.create_sub_crate_after("pf1", fs2).id()); });
+                    g(tag + "create_root_after", [&] { return json(w.db->create_root_crate_after("pf2", fr).id()); });
+                    g(tag + "db_remove_track", [&] { w.db->remove_track(ft); return json(0); });
+                    g(tag + "db_remove_crate", [&] { w.db->remove_crate(fs2); return json(0); });
+                    g(tag + "foreign_still_ok", [&] { return json({fr.is_valid(), fr.name(), ids_of(fr.children()), tids_of(fr.tracks())}); });
+                }
+                rec["probes"] = p;
+            };
+        }
         else if (name == "probe_crate")
         {
             // every observer of one handle, valid or not, each guarded on its own
